@@ -210,13 +210,15 @@ CLAIMS = {
     ),
     "C16": dict(
         category="proof",
-        text="Coq refinement theorem: for EVERY finite history over compile(save to p)/load(p)/call, the process model with the save and "
-             "load disciplines read from the source (rename into place, private copy on load) produces exactly the outputs of the "
-             "specification 'a call returns the model its handle was made from; load(p) yields the model most recently saved to p', and "
+        text="Coq refinement theorem: for EVERY finite history over compile(save to p)/load(p)/call/compile() again on an existing instance, "
+             "the process model with the save, load and recompile disciplines read from the source (rename into place, private copy on "
+             "load, an instance without a model refuses) produces exactly the outputs of the specification 'a call returns the model its "
+             "handle was made from; load(p) yields the model most recently saved to p; recompiling saves the instance's own model', and "
              "never crashes (induction with a refinement relation); the old disciplines are refuted by concrete histories. Partial: the "
              "loader/mmap semantics are modelled, thread interleavings exercised not proved. Tied by executing histories (fixed dangerous "
              "shapes + random, length <= 5/7) in fresh interpreters and comparing every step with the model in the kernel; 2..16 threads "
-             "on same/different handles vs sequential results; static-storage scan of the emitted text.",
+             "on same/different handles vs sequential results; compile() on loaded handles; concurrent saves to one path; static-storage scan "
+             "of the emitted text.",
         design_ref="DESIGN.md section 6 C16",
         note="Coq kernel (closed theorems); translator libio.py; glibc loader, file system and thread scheduling trusted / exercised.",
         technique="Rocq/Coq proof (refinement of a state machine to an abstract map spec, induction over histories) + subprocess history correspondence",
